@@ -334,6 +334,9 @@ type GenState struct {
 	uniq    int
 	Restarts int
 	Dropped map[string]bool // index names that were dropped at least once
+	force   []string        // op kinds queued as the follow-up of the previous op (short scripted sequences)
+	lastDropped, lastDelIdx string
+	links   []Op // link ops generated so far (unlink prefers an existing edge, with the inverse it was created with)
 	retentionUsed bool      // at most one index per run gets a graph retention (RunGraphVacuum takes the first it finds)
 }
 
@@ -503,6 +506,11 @@ func (gs *GenState) genCfg(r *rand.Rand) *IndexCfg {
 func (gs *GenState) genOp(r *rand.Rand) Op {
 	for tries := 0; tries < 200; tries++ {
 		k := pick(r, gs.P.Kinds)
+		forced := false
+		if len(gs.force) > 0 {
+			k, gs.force = gs.force[0], gs.force[1:]
+			forced = true
+		}
 		live := gs.liveIdx()
 		switch k {
 		case "kvset":
@@ -517,19 +525,27 @@ func (gs *GenState) genOp(r *rand.Rand) Op {
 		case "create":
 			var free []string
 			for _, n := range gs.Names {
-				if gs.Idx[n] == nil && !(gs.P.Avoid && gs.Dropped[n]) {
+				if gs.Idx[n] == nil {
 					free = append(free, n)
 				}
 			}
 			if len(free) == 0 {
 				continue
 			}
+			if forced && gs.lastDropped != "" && gs.Idx[gs.lastDropped] == nil {
+				return Op{K: "create", Idx: gs.lastDropped, Cfg: gs.genCfg(r)} // the name that was just dropped, with another configuration
+			}
 			return Op{K: "create", Idx: pick(r, free), Cfg: gs.genCfg(r)}
 		case "drop":
-			if len(live) == 0 || r.Intn(3) != 0 {
+			if len(live) == 0 || (!forced && r.Intn(3) != 0) {
 				continue
 			}
-			return Op{K: "drop", Idx: pick(r, live)}
+			ix := pick(r, live)
+			gs.lastDropped = ix
+			if r.Intn(2) == 0 {
+				gs.force = append(gs.force, "create", "add") // drop, re-create under the same name, use it
+			}
+			return Op{K: "drop", Idx: ix}
 		case "add":
 			if len(live) == 0 {
 				continue
@@ -548,6 +564,9 @@ func (gs *GenState) genOp(r *rand.Rand) Op {
 			dim := gi.Dim
 			if dim == 0 {
 				dim = gs.P.Dim
+				if gs.Dropped[ix] && r.Intn(2) == 0 {
+					dim++ // an index re-created under a dropped name may well have another dimension
+				}
 			}
 			return Op{K: "add", Idx: ix, ID: pick(r, cands), Vec: genVec(r, dim), Meta: gs.genMeta(r, gi)}
 		case "addbatch", "import":
@@ -608,6 +627,10 @@ func (gs *GenState) genOp(r *rand.Rand) Op {
 			id := pick(r, ids)
 			switch k {
 			case "del":
+				gs.lastDelIdx = ix
+				if !forced && r.Intn(4) == 0 {
+					gs.force = append(gs.force, "maint") // delete, then vacuum straight away (nothing flushed in between)
+				}
 				return Op{K: "del", Idx: ix, ID: id}
 			case "setmeta":
 				m := gs.genMeta(r, gi)
@@ -650,7 +673,16 @@ func (gs *GenState) genOp(r *rand.Rand) Op {
 				case 2:
 					props = map[string]any{"b": pick(r, []string{"x", "y"})}
 				}
-				return Op{K: "link", Idx: ix, ID: src, ID2: dst, Rel: rel, Inv: inv, W: []float32{0, 0.5, 1}[r.Intn(3)], Props: props}
+				op := Op{K: "link", Idx: ix, ID: src, ID2: dst, Rel: rel, Inv: inv, W: []float32{0, 0.5, 1}[r.Intn(3)], Props: props}
+				gs.links = append(gs.links, op)
+				if len(gs.links) > 40 {
+					gs.links = gs.links[1:]
+				}
+				return op
+			}
+			if len(gs.links) > 0 && r.Intn(3) != 0 {
+				l := pick(r, gs.links) // an edge that was really created, unlinked the way it was linked
+				return Op{K: "unlink", Idx: l.Idx, ID: l.ID, ID2: l.ID2, Rel: l.Rel, Inv: l.Inv, Hard: r.Intn(3) == 0}
 			}
 			return Op{K: "unlink", Idx: ix, ID: src, ID2: dst, Rel: rel, Inv: inv, Hard: r.Intn(3) == 0}
 		case "updcfg":
@@ -674,6 +706,14 @@ func (gs *GenState) genOp(r *rand.Rand) Op {
 			}
 			return Op{K: "updautolinks", Idx: pick(r, live), Rules: rules}
 		case "snapshot", "rewrite", "graphvacuum", "flush", "sync":
+			if k == "snapshot" {
+				switch r.Intn(6) {
+				case 0:
+					gs.force = append(gs.force, "drop") // a drop directly after a snapshot (no write in between)
+				case 1, 2:
+					gs.force = append(gs.force, "del", "maint") // delete something the snapshot holds, vacuum at once
+				}
+			}
 			return Op{K: k}
 		case "compress":
 			if len(live) == 0 {
@@ -692,6 +732,9 @@ func (gs *GenState) genOp(r *rand.Rand) Op {
 		case "maint":
 			if len(live) == 0 {
 				continue
+			}
+			if forced && gs.lastDelIdx != "" && gs.Idx[gs.lastDelIdx] != nil {
+				return Op{K: "maint", Idx: gs.lastDelIdx, Task: "vacuum"}
 			}
 			return Op{K: "maint", Idx: pick(r, live), Task: pick(r, []string{"vacuum", "refine"})}
 		case "advance":
